@@ -413,7 +413,7 @@ func (e *Engine) stringToBytes(st *State, v Value, elem types.Type, runes bool) 
 			}
 		}
 		lnn := e.name(ln)
-		id := st.newObj(SymArrVal{A: a, N: lnn, Elem: elem, NeedRange: true}, nil)
+		id := st.newObj(SymArrVal{A: a, N: lnn, Elem: elem, NeedRange: true, FromStr: x}, nil)
 		return SliceVal{Obj: id, Off: KInt64(0), Len: lnn, Cap: lnn}
 	}
 	unsup("[]byte(%s)", describe(v))
